@@ -27,13 +27,35 @@ const NBINS: usize = 16;
 
 fn key_transcript<V: Fv>(ctx: &Ctx, key_idx: usize, m_sigs: usize, rep: &mut Report) {
     let seed = seed32(ctx.seed, &format!("c10-key-{}-{}", V::NAME, key_idx));
-    let (sk, pk) = match crate::util::monitored(|| V::keygen(seed)) {
-        Ok(k) => k,
-        Err(_) => {
+    // the key is generated in a FRESH thread; for every second key that thread first generates a
+    // key of the OTHER parameter set (per-thread state carried from one key to the next ends up
+    // in the tree this key signs with)
+    let other_first = (key_idx + if V::N == 512 { 1 } else { 0 }) % 2 == 0;
+    let vseed = ctx.seed;
+    let made = std::thread::spawn(move || {
+        crate::util::monitored(|| {
+            if other_first {
+                let s2 = seed32(vseed, &format!("c10-other-{}", key_idx));
+                if V::N == 512 {
+                    let _ = F1024::keygen(s2);
+                } else {
+                    let _ = F512::keygen(s2);
+                }
+            }
+            V::keygen(seed)
+        })
+    })
+    .join();
+    let (sk, pk) = match made {
+        Ok(Ok(k)) => k,
+        _ => {
             rep.inconclusive("keygen panicked (reported by C04/C15)".into());
             return;
         }
     };
+    if other_first {
+        rep.count("transcript_keys_generated_after_a_key_of_the_other_variant", 1);
+    }
     let n = V::N;
     let sigma = V::SIGMA;
     let b0 = V::basis(&sk);
